@@ -882,8 +882,8 @@ def window_lanczos(N):
     if N == 1:
         return ones(1)
 
-    n = linspace(-N / 2.0, N / 2.0, N)
-    win = sinc(2 * n / (N - 1.0))
+    n = arange(0, N)
+    win = sinc(2 * n / (N - 1.0) - 1.0)
     return win
 
 
